@@ -229,7 +229,7 @@ def check_diff(case) -> list[Fail]:
             if what == "valid" and not (a and b):
                 f.append(Fail("valid-document-rejected", f"{mode}:{kind}:{'pydantic' if not a else 'schema'}", ""))
             elif a != b:
-                where = ".".join("*" if isinstance(x, int) else str(x) for x in path[-3:])
+                where = ".".join("*" if isinstance(x, int) else str(x) for x in path[-2:])
                 f.append(Fail("disagree", f"{mode}:{what}:{kind}:{where}", f"pydantic accepts={a} schema accepts={b} at {path}"))
     return f
 
